@@ -42,7 +42,7 @@ type c16Session struct {
 
 func (s c16Session) String() string {
 	if s.Late {
-		return fmt.Sprintf("method=%s monitors=%d away=%03b cut=conn%d/msg%d, a transaction committed while the restarted monitor is parked after its reply", s.Method, s.Monitors, s.Away, s.CutConn, s.Cut)
+		return fmt.Sprintf("method=%s monitors=%d away=%03b cut=conn%d/msg%d, a transaction committed while the restarted monitor is parked after its reply, second cut at msg %d of the next connection (-1 = none)", s.Method, s.Monitors, s.Away, s.CutConn, s.Cut, s.Cut2)
 	}
 	if s.Leader > 0 {
 		return fmt.Sprintf("method=%s monitors=%d leader-only client, two servers (endpoint order %d); leadership moves at step boundary %d, back %d steps later (-1 = never)", s.Method, s.Monitors, s.Away&1, s.Leader, s.Cut2)
@@ -354,7 +354,9 @@ func c16Run(r *ev.Run, s c16Session, record bool) (msgs []e2e.Msg) {
 						select {
 						case <-arrived:
 							r.Add("late_transactions_during_monitor_restart", 1)
-							lateOps := []rm.Op{opUpdate("R", uR[0], rm.Row{"imm": rm.SetOf(rm.S(""))}), opUpdate("R", uR[0], rm.Row{"name": rm.SetOf(rm.S("late"))}), opInsert("PR", uu("4", 8), rm.Row{"name": rm.SetOf(rm.S("late-row"))}), opUpdate("N1", uN1[1], rm.Row{"name": rm.SetOf(rm.S("late-n1"))})}
+							// modifications only (a replayed insert or delete would be refused by the cache and heal itself through a full
+							// resynchronisation); the set element is the kind of change that silently toggles back if it is applied twice
+							lateOps := []rm.Op{opUpdate("R", uR[0], rm.Row{"name": rm.SetOf(rm.S("late"))}), opMutate("R", uR[0], "wset", "insert", uset(uN1[1])), opUpdate("N1", uN1[1], rm.Row{"name": rm.SetOf(rm.S("late-n1"))})}
 							_, _ = txn(lateOps)
 						case <-time.After(5 * time.Second):
 						}
@@ -647,6 +649,13 @@ func runC16(r *ev.Run) {
 			for k := 0; k < n; k++ {
 				if r.Tier == "thorough" || k%3 == nm%3 {
 					sessions = append(sessions, c16Session{Method: m, Monitors: nm, Away: 7, Cut: k, Cut2: -1, Late: true})
+					// and a second cut soon after that reconnection, before any further notification has refreshed what the client
+					// remembers of the server's transaction id
+					if strings.HasSuffix(m, "+ids") || r.Tier == "thorough" {
+						for k2 := 6 + 2*nm; k2 <= 10+2*nm; k2 += 2 {
+							sessions = append(sessions, c16Session{Method: m, Monitors: nm, Away: 7, Cut: k, Cut2: k2, Late: true})
+						}
+					}
 				}
 			}
 			// silent peer: from message k on nothing reaches the client any more
